@@ -1,6 +1,7 @@
 import PallasVerif.Stream
 import PallasVerif.Streams.Value
 import PallasVerif.Model.PhaseOneArith
+import PallasVerif.Model.NativeScript
 /-! stream `valtotal` (C33). The whole-transaction scenarios (`mt`, `sv`, `fc`, `bw`: mutated fixtures, synthesized extremes,
     fixtures with a rewritten collateral section, Byron witness corners; see harness/src/streams/valtotal.rs) are not
     modelled as a whole; for them this stream only states the outcome class the property demands of `validate_txs` for
@@ -9,6 +10,8 @@ import PallasVerif.Model.PhaseOneArith
       `ld <era> <value> <value>`  — `lovelace_diff_or_fail` (babbage) / `conway_lovelace_diff_or_fail` (conway)
       `cb <era> <legacy return 0|1> F <fee> P <percentage> C <n> <value>^n R <value|-> T <total|->`
                                    — `check_collaterals_assets` of alonzo / babbage / conway
+      `ns <low|-> <upp|-> K <n> <key hash>^n S <m> <script>^m` — `check_native_scripts` (Shelley-MA; hook `native_scripts_ok`);
+                                   <script> in prefix notation: `pk <hash>` `all <k> ..` `any <k> ..` `nk <n> <k> ..` `ib <slot>` `ih <slot>`
     What is proved about the modelled rules is in `Props/C33.lean`. -/
 namespace PallasVerif.Streams.ValTotal
 open PallasVerif PallasVerif.PhaseOneArith
@@ -52,11 +55,53 @@ def runCb (era : String) : List String → String
     | _ => "bad-op"
   | _ => "bad-op"
 
+mutual
+def parseNS : Nat → List String → Option (NativeScript.NS × List String)
+  | 0, _ => none
+  | _ + 1, "pk" :: h :: r => some (.pubkey h, r)
+  | _ + 1, "ib" :: v :: r => (Tok.nat? v).map (fun n => (.invalidBefore n, r))
+  | _ + 1, "ih" :: v :: r => (Tok.nat? v).map (fun n => (.invalidHereafter n, r))
+  | f + 1, "all" :: k :: r => (Tok.nat? k).bind (fun n => (parseNSList f n r).map (fun (l, r') => (.all l, r')))
+  | f + 1, "any" :: k :: r => (Tok.nat? k).bind (fun n => (parseNSList f n r).map (fun (l, r') => (.any l, r')))
+  | f + 1, "nk" :: n :: k :: r =>
+    (Tok.nat? n).bind (fun need => (Tok.nat? k).bind (fun cnt => (parseNSList f cnt r).map (fun (l, r') => (.nOfK need l, r'))))
+  | _ + 1, _ => none
+def parseNSList : Nat → Nat → List String → Option (List NativeScript.NS × List String)
+  | _, 0, r => some ([], r)
+  | 0, _ + 1, _ => none
+  | f + 1, n + 1, r =>
+    match parseNS f r with
+    | some (s, r') => (parseNSList f n r').map (fun (l, r'') => (s :: l, r''))
+    | none => none
+end
+
+def optNatTok? (s : String) : Option (Option Nat) := if s = "-" then some none else (Tok.nat? s).map some
+
+def runNs : List String → String
+  | low :: upp :: "K" :: n :: rest =>
+    match optNatTok? low, optNatTok? upp, Tok.nat? n with
+    | some lo, some up, some k =>
+      let keys := rest.take k
+      match rest.drop k with
+      | "S" :: m :: toks =>
+        match (Tok.nat? m).bind (fun cnt => parseNSList (toks.length + 2) cnt toks) with
+        | some (scripts, []) =>
+          (match NativeScript.checkNativeScripts keys lo up scripts with
+           | some true => "ok true"
+           | some false => "ok false"
+           | none => "panic")
+        | _ => "bad-op"
+      | _ => "bad-op"
+    | _, _, _ => "bad-op"
+  | _ => "bad-op"
+
 def step (_ : Unit) : List String → Unit × String
   | "mt" :: _ => ((), "ok total")
   | "sv" :: _ => ((), "ok total")
   | "fc" :: _ => ((), "ok total")
   | "bw" :: _ => ((), "ok total")
+  | "nt" :: _ => ((), "ok total")
+  | "ns" :: rest => ((), runNs rest)
   | "ld" :: _ :: rest => ((), runLd rest)
   | "cb" :: era :: rest => ((), runCb era rest)
   | _ => ((), "bad-op")
